@@ -264,6 +264,13 @@ func grammarReplay(c *core.Ctx, path string, gb *GrammarBind) int {
 
 // values with lists nested at every position, after earlier lists of the same document
 var nestedListQueryTexts = []string{
+	// a variable at every constant position, directly and nested (none is derivable), and the admissible neighbours
+	`query Q($a: Int @d(x: $b), $b: Int) { f }`, `query Q($a: Int = $b, $b: Int) { f }`, `query Q($a: [Int] = [$b]) { f }`, `query Q($a: Int @d(x: [$b])) { f }`,
+	`query Q($a: Int @d(x: {k: $b})) { f }`, `query Q($a: Int @d(x: 1, y: $a)) { f }`, `query Q($a: In = {k: $a}) { f }`, `query Q($a: Int = 1 @d(x: 2) @e(y: $a)) { f }`,
+	`fragment F($a: Int @d(x: $a)) on T { f }`, `fragment F($a: Int = $a) on T { f }`, `query Q($a: Int @d(x: 1)) @d(x: $a) { f @d(x: $a) ... @d(x: $a) { g } ...F @d(x: [$a]) }`,
+	`query Q($a: Int @d(x: 1) = 2) { f }`, `query Q($a: Int @d) { f(x: $a) }`, `query Q($a: Int = 1 @d(x: [1, {k: 2}])) { f }`,
+	// type conditions are names: no list or non-null wrapper
+	`fragment F on T! { a }`, `fragment F on [T] { a }`, `{ ... on T! { a } }`, `{ ... on [T] { a } }`, `{ ... on [T!]! { a } }`, `fragment F on T { ... on U! { a } }`,
 	`{ f(ids: [7, 8, 9], m: [[1, 2], [3, 4]]) g(m: [a, {k: [b]}, c]) }`,
 	`query($v: [[Int]] = [[1], [2, 3], []]) { f(a: [$v, [$v]], b: [[1], [[2], [3]]]) @d(x: [[0, 1], [2, 3]]) }`,
 	`{ a(x: [1]) b(x: [[2], [3]]) c(x: [[[4]], [[5], [6]]]) d(x: [{k: [7]}, {k: [[8], [9]]}]) e(x: [[], [[]], [[], []]]) }`,
